@@ -668,3 +668,37 @@ Proof.
   apply scansE_app0; [unitF F_m24_scans command Hp|].
   unitF F_m25_scans command Hp.
 Qed.
+
+(** ** C07 on the whole script: the literal list and every description of the completion function read
+    back to the texts of the tables *)
+Lemma fish_script_constants command sig start nd a groups s :
+  fname_ok command -> no_nl sig = true ->
+  Forall (fun c => body_okG Fish c) (a_commands a) ->
+  EmitFish.script command sig start nd a groups = Ok s ->
+  In (SSet "literals" None (map (fun l : N * string * string => IStr (snd (fst l))) (t_literals (a_main a)))) (read_stmts Fish command s)
+  /\ forall k d, In (k, d) (number_from 0 (descr_set (t_literals (a_main a)))) ->
+                 In (SSet "descrs" (Some (k + 1)) [IStr d]) (read_stmts Fish command s).
+Proof.
+  intros Hc Hsig Hb H. destruct (fish_script_read _ _ _ _ _ _ _ Hc Hsig Hb H) as [sts [Hs ->]].
+  unfold fscript_stmts in Hs.
+  apply obind_ok' in Hs. destruct Hs as [gs [_ Hs]]. apply obind_ok' in Hs. destruct Hs as [rows [_ Hs]].
+  assert (E : forall X Y, Ok X = Ok Y :> res (list stmt) -> X = Y) by (intros X Y HH; congruence).
+  apply E in Hs. subst sts. clear E.
+  assert (Hin : forall x, In x (flits_stmts false (t_literals (a_main a))) -> In x
+            (fcmd_fns_stmts command (number_from 0 (a_commands a)) ++ gs ++ match_fn_stmts ++
+             (if n_subwords nd then fsub_fn_stmts command else []) ++
+             [SFunc ("_" ++ command)%string] ++ [SSet "COMP_WORDS" None []] ++
+             [SSet "descrs" None []; SSet "descr_literal_ids" None []] ++
+             flits_stmts false (t_literals (a_main a)) ++
+             [SSet "literal_transitions_inputs" None []; SSet "command_transitions" None [];
+              SSet "star_transitions_from" None []; SSet "star_transitions_to" None []] ++
+             fmatch_stmts false (a_main a) ++ (if n_subwords nd then fsubrow_stmts rows else []) ++
+             [SSet "state" None [INum (start + F.st)]; SSet "word_index" None [INum 2]] ++
+             fcompletion_stmts false (a_main a) ++ (if n_subwords nd then fsublevel_stmts (a_csub a) else []) ++
+             [SSet "fallback_level" None [INum 0]] ++ [SEnd] ++ [SRegister [("_" ++ command)%string; command]])).
+  { intros x Hx. do 7 (apply in_or_app; right). apply in_or_app. left. exact Hx. }
+  split.
+  - apply Hin. left. reflexivity.
+  - intros k d Hkd. apply Hin. right. apply in_or_app. left.
+    apply (in_map (fun id : N * string => SSet "descrs" (Some (fst id + 1)) [IStr (snd id)]) _ (k, d) Hkd).
+Qed.
